@@ -626,14 +626,25 @@ fn run(p: &Prog) -> RunOut {
                 ));
             }
             if rec.fut_drops.load(SeqCst) == 0 {
-                // Observation, not a verdict: Task::cancel = schedule() then
-                // set_cancelled(); the executor can drain and run the task in
-                // between, so the cancelled future is only dropped at the next
-                // wake or with the executor. The statement demands "dropped
-                // exactly once, at home" and "not polled after the cancel", not
-                // promptness; "never dropped" is judged in finish_accounting.
+                // "Dropping the handle cancels the task": the call has returned
+                // (its thread is joined), so the cancellation is visible and
+                // the task must have been made runnable by it. The first tick
+                // drains the sync queue and appends the task to the FIFO hot
+                // list behind at most n - 1 others, every tick runs
+                // `max_interval` of them: it is run (= dropped, being
+                // cancelled) in tick 1 + floor((n - 1) / max_interval) <= cap.
                 late_cancel_drops += 1;
-                let _ = (n, what);
+                bad.push((
+                    format!("C04/future-drop/late/{what}"),
+                    format!(
+                        "task {t}: its JoinHandle was released by `{what}` (the call returned; foreign threads are joined); the owner \
+                         then ticked {cap} times (FIFO bound 2 + floor({n} tasks / max_interval {})) and the future is still not \
+                         dropped ({} polls): the cancellation did not lead to a run of the task after the cancelled mark became \
+                         visible, so it stays parked, holding its resources, until an unrelated wake-up or the end of the executor",
+                        p.m,
+                        rec.polls.load(SeqCst)
+                    ),
+                ));
             }
         }
         for &t in &detached {
@@ -782,10 +793,7 @@ pub(crate) fn evaluate(p: &Prog, rep: &mut Report, leg: &str) -> bool {
     rep.count("xt_remote_join_polls", o.join_polls as i64);
     rep.count("xt_tasks", o.tasks as i64);
     rep.count("xt_owner_notifications", o.owner_calls as i64);
-    rep.count(
-        "xt_cancelled_future_still_alive_after_fifo_bound(observation: dropped at next wake or executor drop)",
-        o.late_cancel_drops as i64,
-    );
+    rep.count("xt_cancelled_future_still_alive_after_fifo_bound", o.late_cancel_drops as i64);
     rep.count("xt_remote_joiner_not_woken_when_executor_dropped(observation)", o.not_woken_at_teardown as i64);
     let mut raced = o.raced.clone();
     raced.sort();
